@@ -4,6 +4,7 @@
 -/
 import JsonataModel.Model.Interp
 import JsonataModel.Model.Proto
+import JsonataModel.Model.Parser
 
 open Jsonata Jsonata.Proto
 
@@ -19,6 +20,17 @@ def handle (line : String) : String :=
       | none, _ => "bad node"
       | _, none => "bad input"
     | _, _ => "bad sexp"
+  | ["parse", hexS] =>
+    match hexToBytes hexS.toList with
+    | none => "bad hex"
+    | some bs =>
+      match Jsonata.Parse.parse bs.toArray with
+      | .ok node => "ok " ++ nodeToText node
+      | .error e => "err " ++ e.type ++ " " ++ toString e.position
+  | ["parse"] =>
+    match Jsonata.Parse.parse #[] with
+    | .ok node => "ok " ++ nodeToText node
+    | .error e => "err " ++ e.type ++ " " ++ toString e.position
   | ["ping"] => "pong"
   | _ => "bad-op"
 
